@@ -16,8 +16,8 @@ CLAIMED = {
 CLAIMED.update({
     "C01": ("exploration",
             "bounded-exhaustive enumeration (complete mixed-radix products of tables over spacing x ordinate alphabets, small-scope argument for N<=5) against an independent long-double Steffen reference model",
-            "Every table with N=3,4 (quick; N=5 thorough) over a 6-letter spacing alphabet (ratios to 1e18) and an 11-letter ordinate alphabet (mixed sign, 1e-20..1e20, plateaus, spikes) is built with the real constructor and queried at knots, nextafter neighbours, 16 interior points per segment and the extrapolation zone; knot reproduction is bitwise, overshoot/monotonicity/continuity/derivative consistency are checked against forward-error bounds and against a reference written from Steffen's paper. Each Steffen segment depends on at most three neighbouring intervals plus a boundary flag, so N<=5 realises every local configuration of longer tables; long tables check position independence. The 2D part enumerates every cell x every 4-tuple of corner values.",
-            "Nothing is concluded for ordinates/spacings outside the alphabets; tolerance T2 = 32u(|y_j|+|y_j+1|) is derived from the rounding model, not fitted. Private fields are read with -fno-access-control only to reset the locator state before each query.",
+            "Every table with N=3,4 (quick; N=5 thorough) over a 6-letter spacing alphabet (ratios to 1e18) and an 11-letter ordinate alphabet (mixed sign, 1e-20..1e20, plateaus, spikes) is built with the real constructor and queried at knots, nextafter neighbours, 16 interior points per segment and the extrapolation zone; knot reproduction is bitwise, overshoot/monotonicity/continuity/derivative consistency are checked against forward-error bounds and against a reference written from Steffen's paper. Each Steffen segment depends on at most three neighbouring intervals plus a boundary flag, so N<=5 realises every local configuration of longer tables; long tables check position independence. Query orders: on four tables (N=9,12; uniform/geometric spacing; zig-zag ordinates) every sequence of 4 (quick: 7.3e5 sequences) / 5 (thorough: 1.6e7 sequences, 7.9e7 queries) queries over the alphabet {knots, segment midpoints} is replayed on a fresh object with the index-search state left alone, every answer held to knot reproduction (to rounding after a history) and the cell range of its true segment. The 2D part enumerates every cell x every 4-tuple of corner values.",
+            "Nothing is concluded for ordinates/spacings outside the alphabets; tolerance T2 = 32u(|y_j|+|y_j+1|) is derived from the rounding model, not fitted. Private fields are read with -fno-access-control only to reset the locator state before each query of the per-table oracles (the query-order part resets nothing); query orders longer than 5 are C09's subject (fixpoint over the locator state).",
             "§3 C01"),
     "C08": ("model_checking",
             "explicit-state BFS over Set_Prefactor/Multiply histories on the real object (state = prefactor bits, reference model = one double) x complete enumeration of tables and ordered limit pairs, oracle = exact antiderivative/extrema of the independent Steffen reference",
